@@ -9,6 +9,7 @@ box  : a WannierData container holding several consistent files -> to_npz/from_n
 
 The oracle is the generated plain-numpy data itself (nothing is compared with a second run of the same code).
 """
+import copy
 import inspect
 import os
 import types
@@ -114,6 +115,14 @@ def must_equal(a, b, what):
     flag = r[0] if isinstance(r, tuple) else r
     if not flag:
         raise Violation(f"{what}:equals-false", f"reverse equals() -> {r}")
+    # negative control (guards the oracle): an O(1) relative change of one k-point must not compare equal
+    b2 = copy.deepcopy(b)
+    k0 = sorted(b2.data.keys())[0]
+    b2.data[k0] = b2.data[k0] + (1.0 + np.abs(b2.data[k0]))
+    r = a.equals(b2)
+    flag = r[0] if isinstance(r, tuple) else r
+    if flag:
+        raise Violation(f"{what}:equals-vacuous", "equals() says True for data changed by more than 100%")
 
 
 def same_array(x, y, what, name, tol_abs=0.0, tol_rel=0.0):
